@@ -11,11 +11,12 @@ Lemma pmod_unique : forall x p z, 0 < p -> IZR z * p <= x < (IZR z + 1) * p -> p
 Proof.
   intros x p z Hp [H1 H2]. unfold pmod.
   assert (E : z = Int_part (x / p)).
-  { apply Int_part_spec. split.
-    - apply Rmult_lt_reg_r with p; auto. unfold Rdiv.
-      replace ((x * / p - 1) * p) with (x - p) by (field; lra). lra.
+  { unfold Int_part. rewrite <- (up_tech (x / p) z).
+    - ring.
     - apply Rmult_le_reg_r with p; auto. unfold Rdiv.
-      replace (x * / p * p) with x by (field; lra). lra. }
+      replace (x * / p * p) with x by (field; lra). lra.
+    - rewrite plus_IZR. apply Rmult_lt_reg_r with p; auto. unfold Rdiv.
+      replace (x * / p * p) with x by (field; lra). simpl. lra. }
   rewrite <- E. reflexivity.
 Qed.
 
@@ -84,4 +85,84 @@ Proof.
   intros x Hx. apply in_map_iff in Hx. destruct Hx as (_ & <- & _).
   destruct (Rlt_dec 0 (2 * PI / INR n)); auto. exfalso. apply n0.
   pose proof PI_RGT_0. apply Rdiv_lt_0_compat; [lra|]. apply lt_0_INR. lia.
+Qed.
+
+Lemma wsum_const : forall {A} f (l : list A) c, length f = length l -> wsum f (map (fun _ => c) l) = sumR f * c.
+Proof.
+  intros A f. induction f; intros l c H; destruct l; simpl in *; try discriminate.
+  - unfold wsum. simpl. lra.
+  - rewrite wsum_cons, (IHf l c) by lia. lra.
+Qed.
+
+(* the statement of the property on the grid of as_frequency_direction_spectrum:
+   positive values, sum * 360/N = 1, for the Newton and the approximate variant, any finite moments *)
+Lemma mem2_estimate_valid_linspace : forall v n a1 b1 a2 b2 D,
+  v <> VMem -> (3 <= n)%nat ->
+  estimate_entry v (linspace360 n) (Some a1) (Some b1) (Some a2) (Some b2) = EDist D ->
+  exists xs, D = map Some xs /\ Forall (fun x => 0 < x) xs /\ sumR xs * (360 / INR n) = 1 /\ length xs = n.
+Proof.
+  intros v n a1 b1 a2 b2 D Hv Hn H.
+  assert (Hne : linspace360 n <> []).
+  { unfold linspace360. destruct n; [lia|]. simpl. congruence. }
+  destruct (mem2_estimate_valid v _ _ _ _ _ _ Hv Hne H) as (xs & HD & Hp & Hs & Hl).
+  assert (Hln : length (linspace360 n) = n) by (unfold linspace360; rewrite map_length, seq_length; reflexivity).
+  exists xs. repeat split; auto; [|lia].
+  rewrite incr_newton_uniform, map_map in Hs by auto.
+  rewrite wsum_const in Hs by (rewrite seq_length; lia).
+  rewrite <- Hs. unfold jac_deg. field.
+  pose proof PI_RGT_0. split; [|lra]. apply not_0_INR. lia.
+Qed.
+
+(* ------------------------------------------------------------------ *)
+(* solve_cholesky: when all four pivots are positive the returned x solves A x = r, where A is the
+   symmetric matrix whose lower triangle the code reads                                            *)
+(* ------------------------------------------------------------------ *)
+Definition symA (A : nat -> nat -> R) (m n : nat) : R := if (n <=? m)%nat then A m n else A n m.
+Definition matvec4 (A : nat -> nat -> R) (x : V4) (m : nat) : R :=
+  A m 0%nat * q1 x + A m 1%nat * q2 x + A m 2%nat * q3 x + A m 3%nat * q4 x.
+
+Lemma chol_solve_correct : forall A r x lg,
+  chol_solve A r = (Some x, lg) ->
+  matvec4 (symA A) x 0 = q1 r /\ matvec4 (symA A) x 1 = q2 r /\
+  matvec4 (symA A) x 2 = q3 r /\ matvec4 (symA A) x 3 = q4 r.
+Proof.
+  intros A r x lg H. unfold chol_solve in H. cbv zeta in H.
+  destruct (Rle_dec (A 0%nat 0%nat) 0) as [|P0]; [discriminate|].
+  set (l00 := sqrt (A 0%nat 0%nat)) in *.
+  set (l10 := 1 / l00 * A 1%nat 0%nat) in *.
+  destruct (Rle_dec (A 1%nat 1%nat - l10 * l10) 0) as [|P1]; [discriminate|].
+  set (l11 := sqrt (A 1%nat 1%nat - l10 * l10)) in *.
+  set (l20 := 1 / l00 * A 2%nat 0%nat) in *.
+  set (l21 := 1 / l11 * (A 2%nat 1%nat - l20 * l10)) in *.
+  destruct (Rle_dec (A 2%nat 2%nat - l20 * l20 - l21 * l21) 0) as [|P2]; [discriminate|].
+  set (l22 := sqrt (A 2%nat 2%nat - l20 * l20 - l21 * l21)) in *.
+  set (l30 := 1 / l00 * A 3%nat 0%nat) in *.
+  set (l31 := 1 / l11 * (A 3%nat 1%nat - l30 * l10)) in *.
+  set (l32 := 1 / l22 * (A 3%nat 2%nat - l30 * l20 - l31 * l21)) in *.
+  destruct (Rle_dec (A 3%nat 3%nat - l30 * l30 - l31 * l31 - l32 * l32) 0) as [|P3]; [discriminate|].
+  set (l33 := sqrt (A 3%nat 3%nat - l30 * l30 - l31 * l31 - l32 * l32)) in *.
+  inversion H; subst x; clear H.
+  assert (S0 : l00 * l00 = A 0%nat 0%nat) by (apply sqrt_sqrt; lra).
+  assert (S1 : l11 * l11 = A 1%nat 1%nat - l10 * l10) by (apply sqrt_sqrt; lra).
+  assert (S2 : l22 * l22 = A 2%nat 2%nat - l20 * l20 - l21 * l21) by (apply sqrt_sqrt; lra).
+  assert (S3 : l33 * l33 = A 3%nat 3%nat - l30 * l30 - l31 * l31 - l32 * l32) by (apply sqrt_sqrt; lra).
+  assert (N0 : l00 <> 0) by (intro Z; rewrite Z in S0; lra).
+  assert (N1 : l11 <> 0) by (intro Z; rewrite Z in S1; lra).
+  assert (N2 : l22 <> 0) by (intro Z; rewrite Z in S2; lra).
+  assert (N3 : l33 <> 0) by (intro Z; rewrite Z in S3; lra).
+  (* express the matrix through the factor: A = L L^T on the lower triangle *)
+  assert (A00 : A 0%nat 0%nat = l00 * l00) by lra.
+  assert (A10 : A 1%nat 0%nat = l10 * l00) by (unfold l10; field; auto).
+  assert (A11 : A 1%nat 1%nat = l10 * l10 + l11 * l11) by lra.
+  assert (A20 : A 2%nat 0%nat = l20 * l00) by (unfold l20; field; auto).
+  assert (A21 : A 2%nat 1%nat = l20 * l10 + l21 * l11) by (unfold l21; field; auto).
+  assert (A22 : A 2%nat 2%nat = l20 * l20 + l21 * l21 + l22 * l22) by lra.
+  assert (A30 : A 3%nat 0%nat = l30 * l00) by (unfold l30; field; auto).
+  assert (A31 : A 3%nat 1%nat = l30 * l10 + l31 * l11) by (unfold l31; field; auto).
+  assert (A32 : A 3%nat 2%nat = l30 * l20 + l31 * l21 + l32 * l22) by (unfold l32; field; auto).
+  assert (A33 : A 3%nat 3%nat = l30 * l30 + l31 * l31 + l32 * l32 + l33 * l33) by lra.
+  unfold matvec4, symA; simpl.
+  rewrite A00, A10, A11, A20, A21, A22, A30, A31, A32, A33.
+  clearbody l00 l10 l11 l20 l21 l22 l30 l31 l32 l33.
+  repeat split; field; auto.
 Qed.
